@@ -276,3 +276,89 @@ def shrink_failure(binary, pid, failure, budget=60):
     best["shrunk_from_events"] = len(failure["events"])
     best["shrink_runs"] = runs[0]
     return best
+
+
+LOCK_CLASSES = {"TickerShard": 0, "KeyWeightsShard": 1, "WeightUsed": 2, "SketchLock": 3, "StoreShard": 4, "PoolBuffer": 5, "AckWaker": 6, "AckStatus": 7}
+
+
+def model_lock_edges():
+    vfile = os.path.join(TMP, "lockedges.v")
+    with open(vfile, "w") as f:
+        f.write("From CacheD Require Import Locks.\nEval vm_compute in (map (fun e => [Z.of_nat (fst e); Z.of_nat (snd e)]) cached_edges).\n")
+    vals = parse_coq_values(coqc_eval(vfile))
+    return {tuple(e) for e in vals[0]}
+
+
+def run_C18(ctx):
+    import subprocess
+    binary, seed, tier = ctx["binary"], ctx["seed"], ctx["tier"]
+    allowed = model_lock_edges()
+    divergences, failures = [], []
+    observed = {}
+
+    def note_edges(edges, where):
+        for held, acq in edges:
+            if acq not in LOCK_CLASSES:
+                divergences.append(dict(kind="lock-edge", component="locks", field="unknown lock class %s" % acq, detail=where))
+                continue
+            for h in held:
+                e = (LOCK_CLASSES.get(h, -1), LOCK_CLASSES[acq])
+                observed[e] = observed.get(e, 0) + 1
+                if e not in allowed:
+                    divergences.append(dict(kind="lock-edge", component="locks", field="nested acquisition %s -> %s is not in the model's lock programs" % (h, acq),
+                                            detail=dict(where=where, held=held, acquired=acq)))
+
+    # 1. nested acquisitions seen while running phase-contiguous schedules (every API, evictions, sweeps, shutdown)
+    scheds = gen.generate(seed, 120 if tier == "quick" else 1500, ["general", "ttl", "evict", "shutdown", "reads", "queue1"]) + corpus_for("C18")
+    ensure_dirs()
+    path = os.path.join(TMP, "C18_sched.txt")
+    corr.write_schedule_file(path, scheds)
+    recs = run_harness(binary, ["run", path])
+    events = 0
+    for r in recs:
+        if r.get("end"):
+            note_edges(r.get("lock_edges", []), r["case"])
+        else:
+            events += 1
+    # 2. free-running stress with a watchdog: thread counts 2..8, 2 shards, queue / pool / buffer of 1, sweeps and evictions
+    #    running, the consumer stalled and resumed
+    ops = 0
+    runs = []
+    plan = [(2, 1200), (4, 1200), (8, 1500)] if tier == "quick" else [(n, 8000) for n in range(2, 9)] + [(8, 30000)]
+    for n, (threads, millis) in enumerate(plan):
+        try:
+            p = subprocess.run([binary, "stress", str(threads), str(millis), str(seed + n)], capture_output=True, text=True, timeout=millis / 1000.0 + 60)
+            out = [json.loads(l) for l in p.stdout.splitlines() if l.startswith("{")]
+        except subprocess.TimeoutExpired:
+            out = []
+            failures.append(dict(signature="stress-run-hung", what="the stress run with %d threads did not finish: a call never returned" % threads, threads=threads, millis=millis, seed=seed + n))
+            continue
+        for d in out:
+            if d.get("stress"):
+                ops += d["operations"]
+                runs.append(dict(threads=threads, millis=millis, operations=d["operations"], panics=d["panic_count"]))
+                note_edges(d["lock_edges"], "stress %d threads" % threads)
+                if d["hung_threads"]:
+                    failures.append(dict(signature="caller-thread-hung", what="caller threads %s made no progress for 3 s under %d threads (a call never returned)" % (d["hung_threads"], threads),
+                                         threads=threads, millis=millis, seed=seed + n, roles=d["roles"]))
+                for role, st in d["roles"].items():
+                    if "Dead" in st:
+                        failures.append(dict(signature="background-thread-died", what="%s died during the stress run: %s" % (role, st), threads=threads, seed=seed + n))
+            if d.get("stress_shutdown_hung"):
+                failures.append(dict(signature="shutdown-hung", what="shutdown() did not return after the stress run", threads=threads, seed=seed + n))
+    nested = {e: c for e, c in observed.items()}
+    return dict(divergences=divergences[:5], failures=failures, evaluations=events + ops, distinct=len(nested),
+                rule="nested lock acquisitions recorded by the lock tracer (a scope guard declared next to every real guard) during %d phase-contiguous schedules and %d free-running "
+                     "stress runs (thread counts %s, 2 shards, queue/pool/buffer of 1, sweeps, evictions, consumer stalled and resumed) must all be edges of the model's lock programs; "
+                     "a watchdog checks that every caller keeps making progress and that shutdown returns; distinct_nontrivial = distinct nested edges observed" % (
+                         len(scheds), len(plan), [t for t, _ in plan]),
+                samples=[dict(edge=list(e), times=c) for e, c in sorted(nested.items())][:12] + runs[:3], traces=len(scheds) + len(plan),
+                extra=dict(model_edges=sorted(list(e) for e in allowed), observed_edges=sorted(list(e) for e in nested), stress_runs=runs,
+                           model_edges_never_observed=sorted(list(e) for e in allowed - set(nested))))
+
+
+import json
+PROPS["C18"] = dict(module="C18", run=run_C18, components=["locks"], coqchk=True,
+                    assumptions=["partial: covers lock and queue wait cycles at the modelled granularity (lock classes, at most one instance per class held, blocking sends with nothing held); "
+                                 "lock internals, waker code run under the waker mutex and OS scheduling are not modelled; reader/writer locks are treated as exclusive",
+                                 "the lock programs are read off the source by hand; the tracer ties them to the code only for the acquisitions that carry a tracer scope"])
